@@ -320,4 +320,43 @@ def build():
         },
         ensures={},
     ))
+    # ---- byte-order conversion on load (numpy_pickle_utils): _ensure_native_byte_order byteswaps EVERY field and relabels the dtype as
+    # native, which preserves the values only if no field is of native order.  Shape-bounded: structured dtypes with two fields
+    # (symbolic byte orders), plain dtypes with any byte order.
+    NPU = "joblib/numpy_pickle_utils.py"
+    ORDERS = ("<", ">", "|", "=")
+
+    def bo_array(interp):
+        ctx = interp.ctx
+        bo = OneOf(*ORDERS).fresh(ctx, "byteorder")
+        fields = None
+        if bo == "|" and ctx.choose(2, "structured") == 1:
+            f1, f2 = OneOf(*ORDERS).fresh(ctx, "field1"), OneOf(*ORDERS).fresh(ctx, "field2")
+            fields = PyDict({"a": (Opaque("dtype", None, byteorder=f1), 0), "b": (Opaque("dtype", None, byteorder=f2), 4)})
+        return Opaque("ndarray", None, dtype=Opaque("dtype", None, byteorder=bo, fields=fields))
+
+    def field_orders(interp, arr):
+        f = arr.attrs["dtype"].attrs["fields"]
+        return [v[0].attrs["byteorder"] for v in f.d.values()] if f is not None else None
+
+    def native_field(interp, arr, host):
+        nat = ("<" if host == "little" else ">", "=")
+        f = field_orders(interp, arr)
+        return arr.attrs["dtype"].attrs["byteorder"] in nat if f is None else any(o in nat for o in f)
+
+    def foreign_only(interp, arr, host):
+        foreign = ">" if host == "little" else "<"
+        f = field_orders(interp, arr)
+        return arr.attrs["dtype"].attrs["byteorder"] == foreign if f is None else all(o == foreign for o in f)
+
+    p.spec_funcs["native_field"] = native_field
+    p.spec_funcs["foreign_only"] = foreign_only
+    for host in ("little", "big"):
+        p.add(Contract(
+            NPU, "_is_numpy_array_byte_order_mismatch", variant="host-" + host, props=["C19"],
+            globals={"sys": lambda interp, host=host: Opaque("sysmod", None, byteorder=host)},
+            params=dict(array=bo_array), ghost=dict(HOST=host),
+            ensures={"never_converts_an_array_with_a_native_field": "implies(native_field(array, HOST), not result)",
+                     "converts_wholly_foreign_arrays": "implies(foreign_only(array, HOST), result)"},
+        ))
     return p
